@@ -68,6 +68,9 @@ def make_gir(rng, names):
     # cross-references: parameters whose types live in the included namespace D give non-local directory
     # entries; their names must never be found as entries of this namespace
     xrefs = [x for x in XREFS if x not in set(names)][:rng.randint(0, len(XREFS))]
+    # every cross-reference adds one local entry (the function using it) and one non-local entry, and the directory holds at most
+    # 65535 entries in all (Header.n_entries is 16 bits wide): the largest name sets leave no room for cross-references
+    xrefs = xrefs[:max(0, (65535 - len(names)) // 2)]
     for j, x in enumerate(xrefs):
         out.append('<function name="xr_fn_%d" c:identifier="t_xr_fn_%d"><return-value transfer-ownership="none">'
                    '<type name="none" c:type="void"/></return-value><parameters><parameter name="p" transfer-ownership="none">'
